@@ -391,9 +391,9 @@ def gen_case(rng, n=None, bs=None, src=None, shuffle=None, drop_last=None, plain
 
 
 def generate(rng, tier):
-    cases = []
+    cases = required_cases()            # every run, any seed, both tiers
     if tier == "quick":
-        cases += [gen_case(rng) for _ in range(480)]
+        cases += [gen_case(rng) for _ in range(440)]
         # every (n, bs) relation at small scope at least once: bs | n, remainder 1, bs > n
         for n in range(0, 7):
             for bs in range(1, n + 2):
@@ -997,16 +997,9 @@ def stats(cases, obss):
     return d
 
 
-def sanity(cases, obss):
-    """Fail-closed distribution check: a run that does not cover the distinctions the property quantifies over
-    must not report green."""
-    d = stats(cases, obss)
+def never_drawn(d):
+    """The kinds / argument forms / boundaries a run must contain (judged on the stats dict)."""
     probs = []
-    tot = d["total"]
-    if not tot:
-        return ["no cases"]
-    if d["error_cases"] > 0.3 * tot:
-        probs.append(f"{d['error_cases']} of {tot} loaders raise")
     for k in ("sequential", "shuffle", "sampler", "batch_sampler"):
         if not d["sampling"].get(k):
             probs.append(f"sampling kind {k} never drawn")
@@ -1039,6 +1032,41 @@ def sanity(cases, obss):
               "index_below_minus_n", "index_at_or_above_n"):
         if not d.get("boundary", {}).get(k):
             probs.append(f"boundary {k} never drawn")
+    return probs
+
+
+REQUIRED_SEED = 20261001
+
+
+def required_cases():
+    """A DETERMINISTIC stream (fixed seed, independent of the run's seed and tier) that contains every kind,
+    argument form and boundary never_drawn() asks for, so that no seed can trip sanity() on an unchanged tree.
+    Greedy cover: cases are drawn from a fixed-seed generator and kept when they add a kind not yet covered."""
+    rng = C.Rng(REQUIRED_SEED)
+    need = set(never_drawn(stats([], [])))
+    kept = []
+    for _ in range(8000):
+        if not need:
+            break
+        c = gen_case(rng)
+        got = need - set(never_drawn(stats([c], [None])))
+        if got:
+            kept.append(c)
+            need -= got
+    return kept
+
+
+def sanity(cases, obss):
+    """Fail-closed distribution check: a run that does not cover the distinctions the property quantifies over
+    must not report green."""
+    d = stats(cases, obss)
+    probs = []
+    tot = d["total"]
+    if not tot:
+        return ["no cases"]
+    if d["error_cases"] > 0.3 * tot:
+        probs.append(f"{d['error_cases']} of {tot} loaders raise")
+    probs += never_drawn(d)
     # the parameter list the call-level Coq model binds positional arguments to must be the live one
     import inspect
     live = [p_ for p_ in inspect.signature(torch.utils.data.DataLoader.__init__).parameters][2:]
